@@ -6,7 +6,7 @@ python3 /verif/tools/vgen.py $repo /verif/contracts/verus/$unit.rs /tmp/vrob/$un
 cd /tmp/vrob
 for n in $unit aa_$unit zz9; do
   cp $unit.rs $n.rs 2>/dev/null
-  for seed in 0 17 101; do
+  for seed in 0 17 101 209; do
     ( verus $n.rs --rlimit 60 --multiple-errors 4 --triggers-mode silent --smt-option smt.random_seed=$seed --smt-option sat.random_seed=$seed 2>&1 | grep -E "verification results|^error" | grep -v aborting | tr '\n' ' '; echo " [$n seed=$seed]" ) &
   done
 done
